@@ -39,9 +39,12 @@ runm = re.search(r"-run\s+'?\"?([\w|^$()\\.]+)", meta.get("demo_cmd", "") + head
 runpat = runm.group(1) if runm else "."
 tags = "-tags verif " if "-tags verif" in (meta.get("demo_cmd", "") + head) else ""
 def run_demo():
+    made = not os.path.isdir(f"{wt}/{pkg}")
+    os.makedirs(f"{wt}/{pkg}", exist_ok=True)
     shutil.copy(f"{src}/{demo}", f"{wt}/{dest}")
     c, o = sh(f"go test {tags}-vet=off -count=1 -run '{runpat}' ./{pkg}/", wt, 900)
     os.remove(f"{wt}/{dest}")
+    if made: shutil.rmtree(f"{wt}/{pkg}", ignore_errors=True)
     return c, o
 c, o = sh(f"git apply {src}/patch.diff", wt)
 res["patch_applies_to_base"] = (c == 0)
